@@ -117,6 +117,12 @@ func genesis(r *sim.Rng, nv, nKeys int) *sim.GenesisSpec {
 	for i := 0; i < nKeys; i++ {
 		g.Accounts = append(g.Accounts, &fsm.Account{Address: sim.BLSKey(i).Addr, Amount: r.Pick(0, 20000, 3_000_000_000, 5_000_000_000)})
 	}
+	// two validators of one operator: their stakes return to the SAME output address (chain mode lets both finish unstaking in
+	// one block: each stake must arrive)
+	if nv >= 5 {
+		g.Validators[3].Output = sim.BLSKey(nKeys - 1).Addr
+		g.Validators[4].Output = sim.BLSKey(nKeys - 1).Addr
+	}
 	g.Pools = []*fsm.Pool{{Id: lib.DAOPoolID, Amount: r.Pick(0, 1000, 1_000_000)}}
 	return g
 }
@@ -393,6 +399,16 @@ func chainMode(r *sim.Rng, nChains, nBlocks int, cw *sim.CaseWriter, outDir stri
 				if m, _, _, cerr := n.FSM.VerifCheckTx(tx); cerr == nil {
 					if d, ok := m.(*fsm.MessageDAOTransfer); ok && d.Mint {
 						daoMint += d.Amount
+					}
+				}
+			}
+			if b == 1 {
+				// both validators that share an output address start unstaking in this block: they finish in one block
+				for _, i := range []int{3, 4} {
+					k := sim.BLSKey(i)
+					if v, e := n.FSM.GetValidator(crypto.NewAddress(k.Addr)); e == nil && v != nil && v.UnstakingHeight == 0 {
+						spec.Txs = append(spec.Txs, sim.TxBytes(fsm.NewUnstakeTx(k.Priv, crypto.NewAddress(k.Addr), 1, 1, 10000, h, fmt.Sprintf("shared-output-%d", i))))
+						st.TxOutcome["unstake-of-validators-sharing-an-output"]++
 					}
 				}
 			}
